@@ -54,10 +54,24 @@ def rand_tree(rng):
     return sorted(dirs), sorted(files)
 
 
+def bracketify(rng, name):
+    """a bracket expression (or a backslash escape) in place of one character: [ab] [a-b] [!a] [^b] []a] \\a"""
+    if not name:
+        return rng.choice(["[ab]", "[!a]", "[a-b]"])
+    i = rng.randrange(len(name))
+    c = name[i]
+    other = "b" if c != "b" else "a"
+    cls = rng.choice(["[%s]" % c, "[%s%s]" % (c, other), "[%s%s]" % (other, c), "[a-b]", "[!%s]" % other, "[^%s]" % other,
+                      "[!%s]" % c, "[%s]" % other, "[a-a]", "[b-b]", "[]%s]" % c, "[%s-]" % c, "[.ab]", "\\" + c, "[!a-b]"])
+    return name[:i] + cls + name[i + 1:]
+
+
 def wildify(rng, name):
     r = rng.random()
-    if r < 0.3:
+    if r < 0.25:
         return name
+    if r < 0.40:
+        return bracketify(rng, name)
     if r < 0.5:
         return "*"
     if r < 0.65 and name:
